@@ -10,7 +10,8 @@
   quara/minimization_algorithm/projected_gradient_descent_backtracking.py
       ProjectedGradientDescentBacktracking._is_doing_for_alpha                        -> gen_is_doing_for_alpha
       ProjectedGradientDescentBacktracking.optimize                                   -> gen_bt_body, gen_bt_locals, gen_bt_for, gen_bt_optimize
-      (+ the code before the loop: start point and step parameter from the options       -> gen_bt_start, gen_bt_mu; likewise gen_mom_start, gen_mom_gamma,
+      (+ the code before the loop: validation raises -> gen_bt_precondition (likewise mom, fista); start point and step parameter from the options
+                                                                                         -> gen_bt_start, gen_bt_mu; likewise gen_mom_start, gen_mom_gamma,
          gen_fista_start, gen_fista_delta; np.sqrt on naturals -> sqn)
   quara/minimization_algorithm/projected_gradient_descent_with_momentum.py
       ProjectedGradientDescentWithMomentum.optimize                                   -> gen_mom_body, gen_mom_for, gen_mom_optimize
@@ -365,13 +366,32 @@ def tr_pre(tag, pre):
             param = "Definition gen_%s_%s (%s : option F) (vs qt : option nat) : option F :=\n    %s." % (tag, target, optattr, term)
         elif assigned & {"x_prev", target}:
             fail(st, "x_prev / %s assigned together with something else" % target)
+    # validation: `if <test>: raise ValueError(...)` statements before the loop; every one must be a recognised test (fail-closed)
+    VALID = {"loss_function.on_value == False": "(Bool.eqb on_value false)", "loss_function.on_value is False": "(Bool.eqb on_value false)",
+             "not loss_function.on_value": "(negb on_value)",
+             "loss_function.on_gradient == False": "(Bool.eqb on_gradient false)", "loss_function.on_gradient is False": "(Bool.eqb on_gradient false)",
+             "not loss_function.on_gradient": "(negb on_gradient)"}
+    raises = []
+    for st in pre:
+        if isinstance(st, ast.If) and len(st.body) == 1 and isinstance(st.body[0], ast.Raise) and not st.orelse:
+            t = ast.unparse(st.test)
+            if t not in VALID:
+                fail(st, "validation test %s" % t)
+            exc = st.body[0].exc
+            if not (isinstance(exc, ast.Call) and ast.unparse(exc.func) == "ValueError"):
+                fail(st, "validation raises something else than ValueError")
+            raises.append(VALID[t])
+        elif isinstance(st, ast.Raise):
+            fail(st, "unconditional raise before the loop")
+    valid = "Definition gen_%s_precondition (on_value on_gradient : bool) : bool := %s." % (
+        tag, " && ".join("negb %s" % r for r in raises) if raises else "true")
     if start is None or param is None:
         fail(pre[0], "start point / %s chain not found before the loop" % target)
     # no other statement before the loop may assign them
     for st in pre:
         if isinstance(st, ast.Assign) and any(isinstance(t, ast.Name) and t.id in ("x_prev", target) for t in st.targets):
             fail(st, "unconditional assignment to x_prev / %s before the loop" % target)
-    return start + "\n" + param
+    return valid + "\n" + start + "\n" + param
 
 
 def tr_optimize(tag, fdef):
